@@ -534,12 +534,16 @@ def rule_once(ctx: Ctx, rule: str = "C02.once"):
             if not is_ins:
                 continue
             n += 1
+            def is_key(t):
+                return show(t) == "key" or (isinstance(t, ast.Tuple) and t.elts and show(t.elts[0]) == "key")
+
             guard = [b for b in p.events[: e.idx] if b.kind == "branch" and isinstance(b.term, ast.Compare)
-                     and isinstance(b.term.ops[0], ast.In) and show(b.term.left) == "key" and b.x["taken"] is False]
+                     and isinstance(b.term.ops[0], ast.In) and is_key(b.term.left) and b.x["taken"] is False]
             seen_sets = {show(b.term.comparators[0]) for b in guard}
+            seen_keys = {show(b.term.left) for b in guard}
             marks = [c for c in p.events[: e.idx] if c.kind == "call" and isinstance(c.term.func, ast.Attribute)
                      and c.term.func.attr == "add" and show(c.term.func.value) in seen_sets and c.term.args
-                     and show(c.term.args[0]) == "key"]
+                     and show(c.term.args[0]) in seen_keys]
             rep.check(bool(guard) and bool(marks), rule, e.loc(),
                       "a wrapper is inserted only for a key not seen before, and the key is recorded", fn.key, norm_stmt(e.node))
     rep.floor(rule, "wrapper insertions", n, 1)
